@@ -291,6 +291,10 @@ type raceOut struct {
 }
 
 func (d *driver) spawnRace(job RaceJob, gomaxprocs int) *raceOut {
+	return d.spawnRaceTest("TestRaceLeg", "VERIF_RACE_JOB", job, gomaxprocs)
+}
+
+func (d *driver) spawnRaceTest(test, envName string, job RaceJob, gomaxprocs int) *raceOut {
 	bin := os.Getenv("VERIF_RACE_BIN")
 	ro := &raceOut{}
 	if bin == "" {
@@ -303,8 +307,8 @@ func (d *driver) spawnRace(job RaceJob, gomaxprocs int) *raceOut {
 	d.mu.Unlock()
 	outPath := filepath.Join(d.tmp, fmt.Sprintf("race%d.json", id))
 	js, _ := json.Marshal(job)
-	cmd := exec.Command(bin, "-test.run=^TestRaceLeg$", "-test.count=1", "-test.timeout=0")
-	cmd.Env = append(os.Environ(), "VERIF_MODE=worker", "VERIF_RACE_JOB="+string(js), "VERIF_OUT="+outPath, "GORACE=halt_on_error=1 exitcode=66", fmt.Sprintf("GOMAXPROCS=%d", gomaxprocs))
+	cmd := exec.Command(bin, "-test.run=^"+test+"$", "-test.count=1", "-test.timeout=0")
+	cmd.Env = append(os.Environ(), "VERIF_MODE=worker", envName+"="+string(js), "VERIF_OUT="+outPath, "GORACE=halt_on_error=1 exitcode=66", fmt.Sprintf("GOMAXPROCS=%d", gomaxprocs))
 	var stderr bytes.Buffer
 	cmd.Stderr = &stderr
 	cmd.Stdout = &stderr
@@ -636,6 +640,52 @@ func (d *driver) check(prop, tier string) int {
 			"note": "auxiliary: real goroutine scheduling and real clock under the race detector; not deterministic, replay best effort; the verdict of C13 rests on the deterministic leg"}
 		fmt.Printf("race leg: %d free-running sessions, %d searches, %d inconclusive, %d race reports\n", sessions, searches, incon, races)
 	}
+	if prop == "C08" && os.Getenv("VERIF_RACE_BIN") != "" && os.Getenv("VERIF_NO_RACE_LEG") == "" {
+		rb, procs := 10.0, 4
+		if tier == "thorough" {
+			rb, procs = d.budget(tier)/6, 4
+		}
+		if v, err := strconv.ParseFloat(os.Getenv("VERIF_RACE_BUDGET_S"), 64); err == nil {
+			rb = v
+		}
+		ros := make([]*raceOut, procs)
+		var rwg sync.WaitGroup
+		for i := 0; i < procs; i++ {
+			rwg.Add(1)
+			go func(i int) {
+				defer rwg.Done()
+				ros[i] = d.spawnRaceTest("TestParallelLeg", "VERIF_PAR_JOB", RaceJob{Seed: master, BudgetS: rb, First: i * 1_000_000}, 4)
+			}(i)
+		}
+		rwg.Wait()
+		sessions, searches, races := 0, 0, 0
+		for _, ro := range ros {
+			if ro.sum != nil {
+				sessions += ro.sum.Sessions
+				searches += ro.sum.Searches
+				for _, v := range ro.sum.Violations {
+					rc := &RunCase{Property: prop, Leg: "parallel", Seed: master}
+					found = append(found, finding{run: &RunResult{Leg: "parallel", Seed: master, Case: rc, Violations: []Violation{v}}, v: v, from: "race"})
+				}
+			}
+			if ro.report != "" || ro.panicS != "" {
+				races++
+				var idx uint64
+				fmt.Sscanf(ro.last, "RACE-SESSION seed=%d index=%d", new(uint64), &idx)
+				v := Violation{Property: prop, Kind: "data-race", Detail: "[parallel leg, -race] " + raceSites(ro.report) + " :: " + tail(ro.report, 1500)}
+				if ro.report == "" {
+					v = Violation{Property: prop, Kind: "panic", Detail: "[parallel leg] process died: " + ro.panicS}
+				}
+				rc := &RunCase{Property: prop, Leg: "parallel", Seed: master, Run: idx}
+				found = append(found, finding{run: &RunResult{Leg: "parallel", Run: idx, Seed: master, Case: rc, Violations: []Violation{v}}, v: v, from: "race"})
+			} else if ro.sum == nil {
+				fmt.Fprintf(os.Stderr, "note: a parallel-leg process ended without a summary (%v): %s\n", ro.err, tail(ro.stderr, 600))
+			}
+		}
+		raceStats = map[string]any{"sessions": sessions, "searches": searches, "race_reports": races, "processes": procs, "budget_s_each": rb,
+			"note": "auxiliary: 2-4 engine instances play the same scripted game at the same time on real threads (race detector on) and must report what one engine reports alone; the oracle is schedule independent; replay best effort"}
+		fmt.Printf("parallel leg: %d games on 2-4 simultaneous engines, %d searches, %d race reports\n", sessions, searches, races)
+	}
 	d.raceStats = raceStats
 	sort.SliceStable(found, func(i, j int) bool { return found[i].run.Run < found[j].run.Run })
 
@@ -813,9 +863,12 @@ func (d *driver) replay(path string) int {
 		fmt.Fprintln(os.Stderr, "bad replay file:", err)
 		return 2
 	}
-	if rf.Case.Leg == "race" {
+	if rf.Case.Leg == "race" || rf.Case.Leg == "parallel" {
 		for try := 0; try < 25; try++ {
 			ro := d.spawnRace(RaceJob{Seed: rf.Case.Seed, Sessions: 1, First: int(rf.Case.Run)}, []int{2, 4, 8}[try%3])
+			if rf.Case.Leg == "parallel" {
+				ro = d.spawnRaceTest("TestParallelLeg", "VERIF_PAR_JOB", RaceJob{Seed: rf.Case.Seed, Sessions: 1, First: int(rf.Case.Run)}, 4)
+			}
 			if ro.report != "" {
 				fmt.Printf("attempt %d: %s\n%s\n", try+1, raceSites(ro.report), tail(ro.report, 2500))
 				fmt.Printf("VIOLATION property=%s replay=%s\n", rf.Property, path)
